@@ -281,7 +281,8 @@ func c07Race(p Params) func() {
 			vsched.Failf("ServeConn: %v", st)
 		}
 		var ss2 erpc.Session
-		if kind == "takeover_vs_close" || kind == "setid_vs_setid" {
+		two := kind == "takeover_vs_close" || kind == "setid_vs_setid" || kind == "rename_vs_takeover"
+		if two {
 			_, c2 := vnet.Pipe(vnet.NewAddr(), vnet.NewAddr())
 			if ss2, st = srv.ServeConn(c2); !st.OK() {
 				vsched.Failf("ServeConn: %v", st)
@@ -319,6 +320,11 @@ func c07Race(p Params) func() {
 		case "setid_vs_setid":
 			ths = append(ths, world.Go("setid1", func() { ss.SetID("X") }))
 			ths = append(ths, world.Go("setid2", func() { ss2.SetID("X") }))
+		case "rename_vs_takeover":
+			// one session moves away from its id while the other one takes that id over
+			old := ss.ID()
+			ths = append(ths, world.Go("rename", func() { ss.SetID("Y") }))
+			ths = append(ths, world.Go("takeover", func() { ss2.SetID(old) }))
 		}
 		joinAll(ths)
 		vsched.Quiesce()
@@ -350,7 +356,7 @@ func c07Race(p Params) func() {
 				}
 			}
 		}
-		if kind == "setid_vs_setid" || kind == "takeover_vs_close" {
+		if two {
 			// exactly the healthy sessions are indexed, under their current ids
 			for id, s := range live {
 				got, ok := srv.GetSession(id)
